@@ -532,9 +532,19 @@ def eval_select(p, env):
 
 
 def agg_value(agg, vals, distinct, sep):
-    """vals: list of term-or-ExprError markers (None = error/unbound for that row)"""
+    """vals: list of terms (None = error/unbound for that row; for count* the solutions themselves as frozensets).
+    Returns the value, raises ExprError for 'unbound', or returns ("either", v_or_None) when some row had no value and the aggregate is
+    not COUNT: the specification makes the aggregate an error, RDFLib (as most engines) skips the row - both are accepted."""
     if agg == "count*":
-        return mk_num(len(vals), INT)
+        return mk_num(len(set(vals)) if distinct else len(vals), INT)
+    if agg in ("sum", "avg"):
+        vals = [v if v is not None and family(v) == "numeric" else None for v in vals]
+    if agg != "count" and any(v is None for v in vals):
+        try:
+            lenient = agg_value(agg, [v for v in vals if v is not None], distinct, sep)
+        except ExprError:
+            lenient = None
+        return ("either", lenient)
     present = [v for v in vals if v is not None]
     if distinct:
         seen, u = set(), []
@@ -616,7 +626,7 @@ def eval_group(p, env):
             vals = []
             for m in rows:
                 if agg == "count*":
-                    vals.append(True)
+                    vals.append(frozenset(m.items()))
                     continue
                 try:
                     vals.append(eval_expr(expr, m, env))
@@ -626,8 +636,22 @@ def eval_group(p, env):
                 mu[var] = agg_value(agg, vals, distinct, sep)
             except ExprError:
                 pass
-        if having is not None and not filter_true(having, mu, env):
-            continue
+        if having is not None:
+            if any(isinstance(v, tuple) and v and v[0] == "either" for v in mu.values()):
+                raise Grey("HAVING over a group with an expression error")
+            hmu = {}
+            for k2, v in mu.items():
+                if isinstance(v, tuple) and v and v[0] == "sample":
+                    if len(v[1]) != 1:
+                        raise Grey("HAVING over a SAMPLE with several candidates")
+                    v = next(iter(v[1]))
+                elif isinstance(v, tuple) and v and v[0] == "concat":
+                    if len(v[1]) > 1:
+                        raise Grey("HAVING over a GROUP_CONCAT whose order is open")
+                    v = mk_str("".join(v[1]))
+                hmu[k2] = v
+            if not filter_true(having, hmu, env):
+                continue
         out.append(mu)
     return out
 
